@@ -78,6 +78,13 @@ pub fn to_ring_n(sc: &Scenario, rng: &mut Rng, style: SegStyle, delay_pct: u32) 
     let mut idle: Vec<u64> = Vec::new();
     let mut pending: Vec<usize> = Vec::new();
     let mut next_conn = 0usize;
+    // drawn up front so that the closure below needs no PRNG access
+    let mut caps: Vec<(u32, u32)> = Vec::new();
+    for _ in 0..8 {
+        let w = if rng.chance(1, 4) { *rng.pick(&[1u32, 3, 7, 16, 24, 25, 64]) } else { 0 };
+        let r = if rng.chance(1, 6) { *rng.pick(&[1u32, 2, 5, 23, 24, 25, 64]) } else { 0 };
+        caps.push((w, r));
+    }
     let remap = |c: usize, map: &mut Vec<usize>, idle: &mut Vec<u64>, pending: &mut Vec<usize>, next_conn: &mut usize, out: &mut Scenario| {
         while map.len() <= c {
             map.push(usize::MAX);
@@ -89,6 +96,15 @@ pub fn to_ring_n(sc: &Scenario, rng: &mut Rng, style: SegStyle, delay_pct: u32) 
             *next_conn += 1;
             idle[c] = 0;
             out.events.push(Ev::Connect { c: map[c] });
+            // per-connection transport knobs: how much one read / one write moves
+            // (short writes and tiny reads whatever the delivery segmentation is)
+            let r = caps.get(map[c] % caps.len().max(1)).copied().unwrap_or((0, 0));
+            if r.0 > 0 {
+                out.events.push(Ev::WriteCap { c: map[c], n: r.0 });
+            }
+            if r.1 > 0 {
+                out.events.push(Ev::ReadCap { c: map[c], n: r.1 });
+            }
         }
     };
     for ev in &sc.events {
